@@ -24,11 +24,11 @@ def ofInt32 : Int → Option Status
   | _ => none
 
 /-- `Status_name` (jsonpb prints an enum by this table). -/
-def Status_name : List (Int × String) :=
+def Status_name : List (Int × _root_.String) :=
   [(0, "STATUS_UNSPECIFIED"), (1, "STATUS_ACTIVE"), (2, "STATUS_INACTIVE_PENDING"), (3, "STATUS_INACTIVE")]
 
 /-- `Status_value` (jsonpb parses an enum string by this table). -/
-def Status_value : List (String × Int) :=
+def Status_value : List (_root_.String × Int) :=
   [("STATUS_ACTIVE", 1), ("STATUS_INACTIVE", 3), ("STATUS_INACTIVE_PENDING", 2), ("STATUS_UNSPECIFIED", 0)]
 
 /-- `func (s Status) String() string` -/
@@ -40,8 +40,7 @@ def String (s : Status) : _root_.String :=
   | _ => "unspecified"
 
 /-- `func (s Status) IsValid() bool` -/
-def IsValid (s : Status) : Bool :=
-  s == .StatusActive || s == .StatusInactivePending || s == .StatusInactive
+def IsValid (s : Status) : Bool := s == .StatusActive || s == .StatusInactivePending || s == .StatusInactive
 
 /-- `func (s Status) Equal(v Status) bool` -/
 def Equal (s v : Status) : Bool := s == v
